@@ -246,7 +246,26 @@ func runC18(c *kit.Ctx) {
 			v := call.Value()
 			good := false
 			if v != nil {
-				for _, r := range kit.Referrers(v) {
+				// the result itself, or the variable it is merged into (`if err == nil { err = c.inFlightUp() }`)
+				vals := []ssa.Value{v}
+				for i := 0; i < len(vals) && i < 8; i++ {
+					for _, r := range kit.Referrers(vals[i]) {
+						if ph, ok := r.(*ssa.Phi); ok {
+							dup := false
+							for _, w := range vals {
+								dup = dup || w == ssa.Value(ph)
+							}
+							if !dup {
+								vals = append(vals, ph)
+							}
+						}
+					}
+				}
+				var refs []ssa.Instruction
+				for _, w := range vals {
+					refs = append(refs, kit.Referrers(w)...)
+				}
+				for _, r := range refs {
 					bo, ok := r.(*ssa.BinOp)
 					if !ok {
 						continue
